@@ -30,7 +30,7 @@ LEVEL = "exploration"
 ENGINE = "E2-netsim+E4-audit"
 TECHNIQUE = "runtime monitoring: lexical containment of returned paths + audit-hook record of every file the resource opens/lists"
 RULE = ("(a) names built from a hostile alphabet ('/', '\\\\', '.', '..', '%2e', '%2f', NUL, non-UTF-8, "
-        "empty, absolute paths, prefix-sibling templates '../<parent-name><suffix>') x parents (root, "
+        "empty, absolute paths, prefix-sibling templates '../<parent-name><suffix>'; for descendant also separator-free segment lists mixing '..', '.', '' with prefix-sibling names at every position) x parents (root, "
         "root/sub, prefix siblings, '/', str and bytes mode) x child/preauthChild/descendant; distinct by "
         "(method, parent, mode, name), non-trivial = name is not a plain single component.  (b) request "
         "paths of 1-5 segments from inside names and hostile encoded atoms x File configurations "
@@ -40,7 +40,7 @@ ASSUMPTIONS = ["containment is decided lexically on normalised absolute paths; t
                "audit events open / os.listdir / os.scandir are what 'serving a file' can use; os.stat has no audit event, so mere existence probing outside the root is not observed",
                "trusted base: vf/engines/fsaudit.py (self-tested), the in-memory transport, reactor.iterate(0) pumping"]
 SHARDS = {"quick": 4, "thorough": 16}
-FLOORS = {"child_calls": 2000, "preauth_calls": 2000, "descendant_calls": 1000, "refused_insecure": 1000,
+FLOORS = {"child_calls": 2000, "preauth_calls": 2000, "descendant_calls": 1000, "descendant_segment_lists": 1000, "refused_insecure": 1000,
           "returned_paths_checked": 1000, "requests": 500, "audit_events_in_base": 500, "responses_200_inside": 100,
           "hostile_requests": 300}
 READY = True
@@ -84,6 +84,23 @@ def gen_name(rng, parent_name):
     n = rng.randint(2, 5)
     sep = rng.choice(["/", "/", "", "\\"])
     return sep.join(rng.choice(ATOMS) for _ in range(n))
+
+
+SIB = ["X", "-secret", "2", ".txt", "Y", "_", "\x00", "é"]
+
+
+def gen_segments(rng, parent_name):
+    """descendant() argument: separator-free segments, '..' / '.' / '' mixed with names that extend
+    the parent's own name (the prefix siblings of the layout: rootX, root-secret, ...) at every position."""
+    r = rng.random()
+    sib = parent_name + rng.choice(SIB)
+    if r < 0.35:  # templates: climb out, then step into a prefix sibling
+        t = rng.choice([["..", sib], ["..", sib, "secret"], ["a", "..", "..", sib, "x"], [".", "..", sib], ["", "..", sib, ""],
+                        ["a", "b", "..", "..", "..", sib], ["..", sib, "..", sib], ["..", ".", sib, "."], ["sub", "..", "..", sib, "secret.txt"],
+                        ["..", parent_name], ["..", parent_name, "a.txt"], ["..", "..", "x", "..", sib], [sib, "..", "..", sib], ["..", "", sib]])
+        return list(t)
+    pool = ["..", "..", "..", ".", "", sib, sib, parent_name, parent_name + rng.choice(SIB), "a", "sub", "deep", "secret.txt", "x", "~", " "]
+    return [rng.choice(pool) for _ in range(rng.randint(1, 6))]
 
 
 def _text(p):
@@ -172,6 +189,19 @@ def run_filepaths(ctx, base):
                         pn = os.path.basename(parent_rel)
                         nm = name.replace("root", pn or "root") if parent_rel == "root/sub" else name
                         filepath_case(ctx, FilePath, InsecurePath, base, parent_rel, mode, method, [nm] if method == "descendant" else nm)
+    # directed descendant() segment lists: '..' / '.' / '' with prefix siblings at every position, str and bytes
+    for parent_rel in ("root", "root/sub", "root-secret"):
+        pn = os.path.basename(parent_rel)
+        for suffix in ("X", "-secret", "2"):
+            sib = pn + suffix
+            lists = [["..", sib], ["..", sib, "secret"], ["a", "..", "..", sib, "x"], [".", "..", sib], ["", "..", sib], [sib, "..", "..", sib],
+                     ["..", sib, ".."], ["a", ".."], ["..", pn], ["..", pn, "a.txt"], ["a", "..", "..", pn + suffix], ["..", "..", "x"], [sib], [".."]]
+            for segs in lists:
+                for mode in MODES:
+                    k += 1
+                    if ctx.owns(k):
+                        ctx.count("descendant_segment_lists")
+                        filepath_case(ctx, FilePath, InsecurePath, base, parent_rel, mode, "descendant", segs)
     for i in ctx.cases(30000, 3000000):
         rng = ctx.case_rng("fp", i)
         parent_rel = rng.choice(PARENTS[:2]) if rng.random() < 0.6 else rng.choice(PARENTS)
@@ -179,7 +209,11 @@ def run_filepaths(ctx, base):
         mode = rng.choice(MODES)
         method = rng.choice(["child", "preauthChild", "preauthChild", "descendant"])
         if method == "descendant":
-            name_t = [gen_name(rng, pn) if rng.random() < 0.6 else rng.choice(["a", "sub", "deep", "x"]) for _ in range(rng.randint(0, 4))]
+            if rng.random() < 0.55:
+                name_t = gen_segments(rng, pn)
+                ctx.count("descendant_segment_lists")
+            else:
+                name_t = [gen_name(rng, pn) if rng.random() < 0.6 else rng.choice(["a", "sub", "deep", "x"]) for _ in range(rng.randint(0, 4))]
         else:
             name_t = gen_name(rng, pn)
         filepath_case(ctx, FilePath, InsecurePath, base, parent_rel, mode, method, name_t, sample=i < 2 * ctx.nshards)
